@@ -118,9 +118,18 @@ func ExecuteRequest(ctx context.Context, req *thunderpb.ExecuteRequest, gqlSchem
 		}, nil
 	}, time.Hour, false)
 
-	<-done
+	// The rerunner never calls the computation if ctx is cancelled before its first
+	// run (the caller gave up, or a sibling sub-query of the gateway failed): do
+	// not wait for a run that will not happen. Stop waits for a run in progress.
+	select {
+	case <-done:
+	case <-ctx.Done():
+	}
 
 	rerunner.Stop()
+	if queryResponse == nil && queryError == nil {
+		return nil, ctx.Err()
+	}
 	return queryResponse, queryError
 }
 
